@@ -12,6 +12,18 @@ Space (crossed fully):
                  column position) and on the 4 diagonals at every pair of distances.
     cell2coord / cell2rowcol / neighbours : every valid cell and the invalid cell
                  numbers {-1, -7, ntot, ntot+5, 2^40}; xvalues/yvalues/xlim/ylim.
+Size ladder (added): grids with nrows, ncols in {1, 2, 16, 17, 255, 256, 257, 1000} (strips 1xN / Nx1, squares, mixed
+  shapes; thorough: the whole ladder 7..4097, 10001, 65535..65537 as strips) queried on a SPARSE structured set of
+  cells (rows/columns next to both ends, the middle and every power of two, crossed with 5 columns/rows; a 17-cell
+  diagonal; the cells numbered 2^15, 2^16, 2^31, 2^32 +- 2) with the same Fraction oracle; one really constructed
+  14000 x 14000 int8 grid (196 MB of untouched zero pages) and geometry-only grids (a 1x1 Grid whose nrows / ncols
+  attributes are re-assigned: the constructor allocates nrows*ncols cells, the functions judged here never read them)
+  of 70000^2, 65536^2, 46341^2, 1 x (2^32+7), (2^31+11) x 3 ... cells for cell numbers around 2^31 and 2^32.
+Layouts (added, differential): on the first grid of every unit and on the ladder grids the same cell numbers as
+  list / tuple / int16 / int32 / uint32 / big-endian / strided / reversed / read-only / integer-valued float64, the same
+  points as list / float32 (exactly representable points only) / int32 / int64 (integer points only) / Fortran order /
+  strided rows or columns / reversed / read-only / big-endian, and neighbours(c) for numpy scalar types of c must
+  give the result of the int64 / float64 C-contiguous call (a layout refused with an exception is counted).
 Oracle: exact Fraction arithmetic on the float inputs (the float query coordinate is
   taken as given; T = (x - xll)/csz is computed exactly) decides column / row / side and
   the safety margin; points closer than max(1e-9, 64 u max(1,|T|,|x|/csz,|xll|/csz))
@@ -31,7 +43,15 @@ RULE = ("every grid geometry (nrows, ncols) x cellsize x xll x yll of the tier's
         "(grid, cell number, method); coord2cell cases are non-trivial when the exact model judges them "
         "(margin respected), cell cases always. Cases are distinct by construction (nested enumeration of "
         "distinct alphabet values; duplicate 1-D positions cannot occur because positions are strictly "
-        "increasing in exact arithmetic, which is asserted).")
+        "increasing in exact arithmetic, which is asserted). SIZE LADDER: one unit per large shape (dimensions in "
+        "{1,2,16,17,255,256,257,1000}, thorough the whole ladder up to 65537) x 3-6 cell sizes x 3-5 origins: the sparse "
+        "cell set (ends, middle, indices next to powers of two, diagonal, cell numbers next to 2^15/2^16/2^31/2^32) "
+        "through cell2rowcol / cell2coord / round trip / neighbours (+ the neighbours' own answers for the mirror "
+        "relation) / 14 invalid numbers (including numbers whose low 32 bits are a valid cell) / xvalues / yvalues, "
+        "and coord2cell on the product of the sparse 1-D positions; 1 constructed 14000^2 grid and 9 geometry-only "
+        "grids up to 70000^2 and 1 x (2^32+7). LAYOUTS: differential re-execution of the same queries in 10-11 "
+        "containers / dtypes / stride patterns per function on the first grid of each unit and 2-3 grids per ladder "
+        "shape.")
 ASSUMPTIONS = [
     "query coordinates are the float64 values actually passed; the exact model works on those floats, so only the rounding of (x-xll)/csz inside the implementation is absorbed by the margin",
     "points closer than max(1e-9, 64*2^-53*max(1,|T|,|x|/csz,|xll|/csz)) cell sizes to a cell edge are dropped (counted in dropped.margin), as the quantifier says 'away from edges by 1e-9 relative'",
@@ -40,6 +60,10 @@ ASSUMPTIONS = [
     "an invalid cell number counts as flagged when the method raises, or cell2coord yields a NaN, or cell2rowcol yields a negative entry, or neighbours yields only -1",
     "coordinates beyond 1e6 cells from the grid, NaN/inf coordinates and cell numbers beyond 2^40 are outside the bound",
     "extension modules rebuilt from the working tree C sources; Cython wrapper C not re-translated",
+    "size ladder: Grid(...) allocates nrows*ncols cells (numpy zeros, never touched by the functions judged here); the largest really constructed grid is 14000x14000 int8 (196 MB virtual); grids with more than 2^31 cells are geometry-only: a 1x1 Grid whose public nrows/ncols attributes are re-assigned. An exception raised on such a grid is not judged (counted unjudged.virtual_grid.*), a wrong number is",
+    "on huge grids the off-centre query points sit a quarter cell from the edges (2^-29 cell is not resolvable when the column index exceeds 2^24); the Fraction margin rule is unchanged",
+    "layout variants: only values that are exactly representable in the other dtype are converted (float32 / int32 / int64 points, int16 / int32 / uint32 cell numbers); a layout the method refuses with a Python exception is accepted and counted (layout.rejected.*); a different answer is a violation <function>:layout=<name>",
+    "xvalues / yvalues of ladder grids: exact centres at the sparse indices, strict monotonicity in between",
 ]
 
 EPS = 2.0 ** -29
@@ -67,8 +91,53 @@ def origins(tier, seed):
 def bound_text(tier, seed):
     return ("nrows, ncols in %s; cellsize in %s; xll, yll = cellsize x %s (all pairs); per grid "
             "(3*ncols+14) x (3*nrows+14) query points (inset 2^-29 cell; outside distances %s cells), all valid "
-            "cells and invalid cells {-1,-7,ntot,ntot+5,2^40}" % (
-                sizes(tier), cellsizes(tier, seed), origins(tier, seed), DISTS))
+            "cells and invalid cells {-1,-7,ntot,ntot+5,2^40}; size ladder: shapes %s x cellsize %s x origins "
+            "(in cell sizes) %s, sparse cells (<= ~330 per grid) and sparse coord2cell products; constructed big grid "
+            "%s, geometry-only grids %s; layout variants on the first grid of every unit and on 2-3 grids per ladder shape" % (
+                sizes(tier), cellsizes(tier, seed), origins(tier, seed), DISTS,
+                ladder_shapes(tier), ladder_cellsizes(tier, seed), ladder_origins(tier, seed),
+                [list(b[1:]) for b in BIG_SHAPES], [list(b[1:]) for b in VIRTUAL_SHAPES]))
+
+
+LADDER_DIMS = [1, 2, 16, 17, 255, 256, 257, 1000]
+
+
+def ladder_shapes(tier):
+    """(nrows, ncols) of the size ladder: strips 1xN / Nx1, squares, and a few mixed shapes"""
+    sh = []
+    for n in LADDER_DIMS[2:]:
+        sh += [(1, n), (n, 1)]
+    for n in (16, 17, 255, 256, 257, 1000):
+        sh.append((n, n))
+    sh += [(257, 3), (3, 257), (256, 17), (17, 256), (1000, 2), (2, 1000), (255, 257), (257, 255), (16, 1000)]
+    if tier != "quick":
+        for n in (7, 8, 9, 31, 32, 33, 63, 64, 65, 100, 127, 128, 129, 500, 511, 512, 513, 1001, 1023, 1024, 1025,
+                  4095, 4096, 4097, 10001, 65535, 65536, 65537):
+            sh += [(1, n), (n, 1)]
+        sh += [(2047, 2049), (2049, 2047), (4096, 4096), (65537, 3), (3, 65537), (1025, 1023)]
+    return sh
+
+
+# huge grids. "big": really constructed, one byte per cell (196 MB of untouched zero pages).
+# "virtual": geometry only (see make_grid), cell numbers around 2^31 and 2^32.
+BIG_SHAPES = [("big", 14000, 14000)]
+VIRTUAL_SHAPES = [("virtual", 70000, 70000), ("virtual", 65536, 65536), ("virtual", 46341, 46341),
+                  ("virtual", 46340, 46341), ("virtual", 1, 2 ** 32 + 7), ("virtual", 2 ** 32 + 7, 1),
+                  ("virtual", 3, 2 ** 31 + 11), ("virtual", 2 ** 31 + 11, 3), ("virtual", 2 ** 16 + 1, 2 ** 16 - 1)]
+
+
+def ladder_cellsizes(tier, seed):
+    if tier == "quick":
+        return [2.0 ** -10, 0.1, 1.0]
+    return [2.0 ** -10, 0.1, 0.25, 1.0, 1000.0, SEED_CSZ[seed % len(SEED_CSZ)]]
+
+
+def ladder_origins(tier, seed):
+    o = [[0.0, 0.0], [7.3, -1.0e4], [-0.5, 0.5]]
+    if tier != "quick":
+        so = SEED_ORIGINS[seed % len(SEED_ORIGINS)]
+        o += [[-1.0e4, 7.3], [so, -so]]
+    return o
 
 
 def units(tier, seed):
@@ -78,25 +147,36 @@ def units(tier, seed):
             for csz in cellsizes(tier, seed):
                 us.append({"nrows": nrows, "ncols": ncols, "csz": csz,
                            "origins": origins(tier, seed)})
+    for nrows, ncols in ladder_shapes(tier):
+        us.append({"kind": "ladder", "mode": "ladder", "nrows": nrows, "ncols": ncols,
+                   "cellsizes": ladder_cellsizes(tier, seed), "origins": ladder_origins(tier, seed)})
+    for mode, nrows, ncols in BIG_SHAPES + VIRTUAL_SHAPES:
+        us.append({"kind": "ladder", "mode": mode, "nrows": nrows, "ncols": ncols,
+                   "cellsizes": [1.0, 0.1] if tier == "quick" else [1.0, 0.1, 2.0 ** -10, 1000.0],
+                   "origins": [[0.0, 0.0], [7.3, -1.0e4]]})
     return us
 
 
 # ---------------------------------------------------------------------------
 # exact model
 
-def positions_1d(n, ll, csz, idx=None, inset=EPS):
+BIG_DISTS = [0.25, 0.5, 0.75, 1.0, 1.5, 100.0, 1.0e6]       # huge grids: 2^-29 cell is below the resolution of the extent
+
+
+def positions_1d(n, ll, csz, idx=None, inset=EPS, dists=None):
     """float query positions along one axis: list of (float x, tag).
     idx = optional increasing subset of the n column (row) indices (size ladder: sparse queries);
     inset = distance of the two off-centre points of a cell from its edges (in cells)"""
     out = []
-    for d in reversed(DISTS):
+    dists = DISTS if dists is None else dists
+    for d in reversed(dists):
         out.append((ll - csz * d, "out-lo"))
     for j in (range(n) if idx is None else idx):
         out.append((ll + csz * (j + inset), "edge-inset"))
         out.append((ll + csz * (j + 0.5), "centre"))
         out.append((ll + csz * (j + 1 - inset), "edge-inset"))
     ur = ll + csz * n
-    for d in DISTS:
+    for d in dists:
         out.append((ur + csz * d, "out-hi"))
     return out
 
@@ -172,9 +252,9 @@ def check_coord2cell(ctx, g, gc, only=None):
         else:
             # size ladder: sparse columns / rows; huge grids: quarter-cell insets (2^-29 cell is below the
             # resolution of (x - xll)/csz when the index exceeds 2^24)
-            inset = EPS if mode == "ladder" else 0.25
-            xs = positions_1d(ncols, xll, csz, coarse_indices(ncols), inset)
-            ys = positions_1d(nrows, yll, csz, coarse_indices(nrows), inset)
+            inset, dists = (EPS, DISTS) if mode == "ladder" else (0.25, BIG_DISTS)
+            xs = positions_1d(ncols, xll, csz, coarse_indices(ncols), inset, dists)
+            ys = positions_1d(nrows, yll, csz, coarse_indices(nrows), inset, dists)
         # positions must be strictly increasing (distinctness of cases)
         fx = [p[0] for p in xs]
         fy = [p[0] for p in ys]
@@ -190,6 +270,9 @@ def check_coord2cell(ctx, g, gc, only=None):
     try:
         res = g.coord2cell(pts)
     except Exception as e:
+        if mode == "virtual":
+            ctx.count("unjudged.virtual_grid.coord2cell_raised")       # a resized grid may be refused
+            return
         ctx.case(True, n=len(pts))
         ctx.violation("coord2cell:raised:%s" % type(e).__name__ + sfx, dict(gc, kind="coord2cell-call"),
                       "coord2cell raised %r on finite coordinates" % (e,))
@@ -493,7 +576,461 @@ def check_cells(ctx, g, gc):
         ctx.violation("ylim:not-extent", base, "ylim %r" % (tuple(map(float, yl)),))
 
 
+# ---------------------------------------------------------------------------
+# size ladder: large grids queried on a sparse, structured set of cells
+
+THRESHOLDS = [7, 8, 9, 15, 16, 17, 31, 32, 33, 63, 64, 65, 127, 128, 129, 255, 256, 257, 511, 512, 513,
+              999, 1000, 1001, 1023, 1024, 1025, 4095, 4096, 4097, 32767, 32768, 46340, 46341,
+              65535, 65536, 65537, 2 ** 31 - 1, 2 ** 31, 2 ** 31 + 1, 2 ** 32 - 1, 2 ** 32, 2 ** 32 + 1]
+COARSE_THRESHOLDS = [15, 16, 17, 255, 256, 257, 999, 1000, 65535, 65536, 2 ** 31 - 1, 2 ** 31, 2 ** 32 - 1, 2 ** 32]
+
+
+def sparse_indices(n):
+    """rows / columns of an axis of length n that are queried: both ends, the middle, and every index next to a
+    power of two (or 1000, 46341 = ceil(sqrt(2^31))) below n"""
+    s = set(k for k in (0, 1, 2, n // 2 - 1, n // 2, n - 3, n - 2, n - 1) if 0 <= k < n)
+    s.update(t for t in THRESHOLDS if t < n)
+    return sorted(s)
+
+
+def small_indices(n):
+    return sorted(set(k for k in (0, 1, n // 2, n - 2, n - 1) if 0 <= k < n))
+
+
+def coarse_indices(n):
+    s = set(small_indices(n))
+    s.update(t for t in COARSE_THRESHOLDS if t < n)
+    return sorted(s)
+
+
+def sparse_cells(nrows, ncols):
+    """sparse rows x few columns, few rows x sparse columns, a diagonal of 17 cells, and the cells whose NUMBER is
+    next to 2^15, 2^16, 2^31, 2^32 (a 32-bit cell number / row*ncols product would wrap there)"""
+    ntot = nrows * ncols
+    R, C = sparse_indices(nrows), sparse_indices(ncols)
+    Rs, Cs = small_indices(nrows), small_indices(ncols)
+    cells = set(r * ncols + c for r in R for c in Cs)
+    cells.update(r * ncols + c for r in Rs for c in C)
+    for i in range(17):
+        cells.add((i * (nrows - 1) // 16) * ncols + i * (ncols - 1) // 16)
+    for p in (2 ** 15, 2 ** 16, 2 ** 31, 2 ** 32):
+        for d in (-2, -1, 0, 1, 2):
+            if 0 <= p + d < ntot:
+                cells.add(p + d)
+    # the row in which row*ncols crosses 2^31 / 2^32, at both ends
+    for p in (2 ** 31, 2 ** 32):
+        r = p // ncols
+        for rr in (r - 1, r, r + 1):
+            if 0 <= rr < nrows:
+                cells.update((rr * ncols, rr * ncols + ncols - 1))
+    return sorted(cells)
+
+
+def invalid_cells_ext(ntot):
+    """invalid cell numbers; beyond those of the exhaustive part: numbers whose low 32 bits are a valid cell"""
+    cand = [-1, -7, ntot, ntot + 5, 2 ** 40, 2 ** 31, 2 ** 32, 2 ** 32 + ntot - 1, 2 ** 31 + ntot // 2,
+            -2 ** 32, -2 ** 32 + ntot - 1, -2 ** 31, ntot + 2 ** 32, 2 ** 62]
+    out = []
+    for c in cand:
+        if (c < 0 or c >= ntot) and c not in out:
+            out.append(c)
+    return out
+
+
+def unjudged_or_violation(ctx, gc, key, case, msg):
+    """an exception on a geometry-only ('virtual') grid is not judged: an implementation may legitimately
+    refuse a grid whose dimensions were re-assigned; wrong numbers are judged"""
+    if gc.get("mode") == "virtual":
+        ctx.count("unjudged.virtual_grid.raised")
+    else:
+        ctx.violation(key, case, msg)
+
+
+def check_cells_sparse(ctx, g, gc):
+    nrows, ncols = gc["nrows"], gc["ncols"]
+    ntot = nrows * ncols
+    sfx = SFX[gc["mode"]]
+    base = dict(gc, kind="cells-sparse")
+    cells = sparse_cells(nrows, ncols)
+    arr = np.array(cells, dtype=np.int64)
+    inval = invalid_cells_ext(ntot)
+    n = len(cells)
+    ctx.count("ladder.sparse_cells", n)
+
+    # ---- cell2rowcol
+    try:
+        rc = g.cell2rowcol(arr)
+    except Exception as e:
+        ctx.case(True, n=n)
+        unjudged_or_violation(ctx, gc, "cell2rowcol:raised:%s" % type(e).__name__ + sfx, base,
+                              "cell2rowcol raised %r on valid cells" % (e,))
+        rc = None
+    if rc is not None:
+        ctx.case(True, outcome=rc.tobytes(), n=n)
+        if rc.shape != (n, 2):
+            ctx.violation("cell2rowcol:shape" + sfx, base, "shape %r for %d cells" % (rc.shape, n))
+        else:
+            for i, c in enumerate(cells):
+                exp = list(divmod(c, ncols))
+                if [int(rc[i, 0]), int(rc[i, 1])] != exp:
+                    ctx.violation("cell2rowcol:value" + sfx, dict(base, cell=c),
+                                  "cell %d of a %dx%d grid is (row, col) = %r, got %r" % (c, nrows, ncols, exp, rc[i].tolist()),
+                                  observed=rc[i].tolist(), expected=exp)
+    # ---- cell2coord and round trip
+    try:
+        xy = g.cell2coord(arr)
+    except Exception as e:
+        ctx.case(True, n=n)
+        unjudged_or_violation(ctx, gc, "cell2coord:raised:%s" % type(e).__name__ + sfx, base,
+                              "cell2coord raised %r on valid cells" % (e,))
+        xy = None
+    if xy is not None:
+        ctx.case(True, outcome=xy.tobytes(), n=n)
+        if xy.shape != (n, 2):
+            ctx.violation("cell2coord:shape" + sfx, base, "shape %r for %d cells" % (xy.shape, n))
+            xy = None
+    if xy is not None:
+        for i, c in enumerate(cells):
+            ex, ey = exact_centre(gc, c)
+            ox, oy = float(xy[i, 0]), float(xy[i, 1])
+            if not (close(ox, ex, gc, gc["xll"]) and close(oy, ey, gc, gc["yll"])):
+                ctx.violation("cell2coord:not-centre" + sfx, dict(base, cell=c),
+                              "cell %d of a %dx%d grid: centre is (%r, %r), cell2coord returned (%r, %r)" % (
+                                  c, nrows, ncols, float(ex), float(ey), ox, oy),
+                              observed=[ox, oy], expected=[float(ex), float(ey)])
+        try:
+            back = g.coord2cell(xy)
+            ctx.case(True, outcome=back.tobytes(), n=n)
+            for i, c in enumerate(cells):
+                if int(back[i]) != c:
+                    ctx.violation("roundtrip:coord2cell(cell2coord(c))" + sfx, dict(base, cell=c),
+                                  "coord2cell(cell2coord(%d)) = %d on a %dx%d grid (cellsize %r, xll %r, yll %r)" % (
+                                      c, int(back[i]), nrows, ncols, gc["csz"], gc["xll"], gc["yll"]),
+                                  observed=int(back[i]), expected=c)
+                else:
+                    ctx.count("roundtrip.ok")
+        except Exception as e:
+            ctx.case(True, n=n)
+            unjudged_or_violation(ctx, gc, "roundtrip:raised" + sfx, base, "coord2cell(cell2coord(valid)) raised %r" % (e,))
+    # ---- invalid cell numbers (alone, and appended to a vector of valid cells)
+    for c in inval:
+        case = dict(base, cell=c)
+        for name, call, flag in (("cell2coord", g.cell2coord, lambda o: bool(np.isnan(o).any())),
+                                 ("cell2rowcol", g.cell2rowcol, lambda o: bool((o < 0).any())),
+                                 ("neighbours", g.neighbours, lambda o: bool((o < 0).all()))):
+            try:
+                one = call(c)
+                flagged = flag(one)
+                obs = one.tolist()
+            except Exception as e:
+                flagged = True
+                obs = repr(e)
+            ctx.case(True, outcome=repr(obs))
+            if not flagged:
+                ctx.violation("%s:invalid-cell-not-flagged%s" % (name, sfx), case,
+                              "invalid cell number %d of a %dx%d grid: %s returned %r" % (c, nrows, ncols, name, obs),
+                              observed=obs)
+            else:
+                ctx.count("%s.invalid_flagged" % name)
+    k0 = min(3, len(cells))
+    mixed = np.array(cells[:k0] + inval, dtype=np.int64)
+    for name, call, flag in (("cell2coord", g.cell2coord, lambda o: np.isnan(o).any(axis=1)),
+                             ("cell2rowcol", g.cell2rowcol, lambda o: (o < 0).any(axis=1))):
+        try:
+            out = call(mixed)
+        except Exception:
+            ctx.count("%s.mixed_call_raised" % name)
+            continue
+        ctx.case(True, outcome=out.tobytes(), n=len(inval))
+        if out.shape == (len(mixed), 2):
+            fl = flag(out)
+            for i, c in enumerate(inval):
+                if not fl[k0 + i]:
+                    ctx.violation("%s:invalid-cell-not-flagged:in-vector%s" % (name, sfx), dict(base, cell=c),
+                                  "invalid cell number %d inside a vector mapped to %r" % (c, out[k0 + i].tolist()))
+
+    # ---- neighbours of every sparse cell; mirror relation through the neighbours' own answers
+    cache = {}
+
+    def nbs(c):
+        if c not in cache:
+            try:
+                v = g.neighbours(c)
+            except Exception as e:
+                cache[c] = e
+                return e
+            cache[c] = [int(t) for t in v] if v.shape == (9,) else v
+        return cache[c]
+    for c in cells:
+        case = dict(base, cell=c)
+        v = nbs(c)
+        if isinstance(v, Exception):
+            ctx.case(True)
+            unjudged_or_violation(ctx, gc, "neighbours:raised:%s" % type(v).__name__ + sfx, case, "neighbours(%d) raised %r" % (c, v))
+            continue
+        if not isinstance(v, list):
+            ctx.case(True)
+            ctx.violation("neighbours:shape" + sfx, case, "neighbours(%d) has shape %r, expected 9 slots" % (c, v.shape))
+            continue
+        ctx.case(True, outcome=tuple(v))
+        row, col = divmod(c, ncols)
+        exp = []
+        for k in range(9):
+            r2, c2 = row + k // 3 - 1, col + k % 3 - 1
+            exp.append(-1 if (k == 4 or r2 < 0 or r2 >= nrows or c2 < 0 or c2 >= ncols) else r2 * ncols + c2)
+        edge = (row in (0, nrows - 1)) or (col in (0, ncols - 1))
+        ctx.count("neighbours.%s" % ("edge_cell" if edge else "interior_cell"))
+        if v != exp:
+            k = [i for i in range(9) if v[i] != exp[i]][0]
+            key = ("neighbours:self-slot-not-minus1" if k == 4 else
+                   "neighbours:off-grid-not-minus1" if exp[k] == -1 else "neighbours:wrong-cell")
+            ctx.violation(key + sfx, case, "neighbours(%d) on a %dx%d grid: slot %d holds %d, expected %d" % (
+                c, nrows, ncols, k, v[k], exp[k]), observed=v, expected=exp)
+            continue
+        for k in range(9):
+            d = exp[k]
+            if d < 0:
+                continue
+            w = nbs(d)
+            if isinstance(w, list) and w[8 - k] == c:
+                ctx.count("neighbours.mirror_pairs")
+            else:
+                ctx.violation("neighbours:not-symmetric-mirrored" + sfx, case,
+                              "neighbours(%d)[%d] = %d but neighbours(%d)[%d] = %r" % (
+                                  c, k, d, d, 8 - k, w[8 - k] if isinstance(w, list) else w), observed=[v, repr(w)])
+
+    # ---- xvalues / yvalues / xlim / ylim
+    try:
+        xl, yl = g.xlim, g.ylim
+        xv = yv = None
+        if max(nrows, ncols) <= 10 ** 6:
+            xv, yv = g.xvalues, g.yvalues
+    except Exception as e:
+        ctx.case(True)
+        unjudged_or_violation(ctx, gc, "xyvalues:raised" + sfx, base, "xvalues/yvalues/xlim/ylim raised %r" % (e,))
+        return
+    ctx.case(True, outcome=(b"" if xv is None else xv.tobytes() + yv.tobytes()) + repr((xl, yl)).encode(), n=4)
+    if xv is not None:
+        okx = len(xv) == ncols and all(close(float(xv[j]), exact_centre(gc, j)[0], gc, gc["xll"]) for j in sparse_indices(ncols))
+        oky = len(yv) == nrows and all(close(float(yv[i]), exact_centre(gc, i * ncols)[1], gc, gc["yll"]) for i in sparse_indices(nrows))
+        # between the sparse indices: strictly monotone (implied by 'the centres', consecutive centres differ by one cell size)
+        okx = okx and bool(np.all(np.diff(xv) > 0))
+        oky = oky and bool(np.all(np.diff(yv) < 0))
+        if not okx:
+            ctx.violation("xvalues:not-column-centres" + sfx, base, "xvalues (length %d, first %r) are not the %d column centres" % (
+                len(xv), xv[:5].tolist(), ncols))
+        if not oky:
+            ctx.violation("yvalues:not-row-centres" + sfx, base, "yvalues (length %d, first %r) are not the %d row centres (top to bottom)" % (
+                len(yv), yv[:5].tolist(), nrows))
+    fx, fy, fc = Fraction(gc["xll"]), Fraction(gc["yll"]), Fraction(gc["csz"])
+    if not (len(xl) == 2 and close(float(xl[0]), fx, gc, gc["xll"]) and close(float(xl[1]), fx + ncols * fc, gc, gc["xll"])):
+        ctx.violation("xlim:not-extent" + sfx, base, "xlim %r" % (tuple(map(float, xl)),))
+    if not (len(yl) == 2 and close(float(yl[0]), fy, gc, gc["yll"]) and close(float(yl[1]), fy + nrows * fc, gc, gc["yll"])):
+        ctx.violation("ylim:not-extent" + sfx, base, "ylim %r" % (tuple(map(float, yl)),))
+
+
+# ---------------------------------------------------------------------------
+# layouts of the query arrays (differential: same values, other container / dtype / strides)
+
+def same_result(a, b):
+    a, b = np.asarray(a), np.asarray(b)
+    return a.shape == b.shape and a.dtype == b.dtype and bool(np.array_equal(a, b, equal_nan=(a.dtype.kind == "f")))
+
+
+def check_layouts(ctx, g, gc):
+    nrows, ncols, csz, xll, yll = gc["nrows"], gc["ncols"], gc["csz"], gc["xll"], gc["yll"]
+    ntot = nrows * ncols
+    mode = gc.get("mode")
+    sfx = SFX[mode]
+    case = dict(gc, kind="layout")
+    cells = sparse_cells(nrows, ncols) if mode else list(range(ntot))
+    ref_cells = np.array(cells + [-1, ntot], dtype=np.int64)
+    try:
+        g.cell2rowcol(ref_cells), g.cell2coord(ref_cells)
+    except Exception:
+        ref_cells = np.array(cells, dtype=np.int64)        # a vector with invalid numbers is refused: valid ones only
+    n = len(ref_cells)
+    variants = [("list", lambda a: [int(v) for v in a], None),
+                ("tuple", lambda a: tuple(int(v) for v in a), None),
+                ("int64-readonly", lambda a: _readonly(a.copy()), None),
+                ("int64-strided", lambda a: _strided(a), None),
+                ("int64-reversed", lambda a: a[::-1], lambda r: r[::-1]),
+                ("int64-bigendian", lambda a: a.astype(">i8"), None)]
+    if np.all(np.abs(ref_cells) < 2 ** 31):
+        variants.append(("int32", lambda a: a.astype(np.int32), None))
+        variants.append(("int32-strided", lambda a: _strided(a.astype(np.int32)), None))
+    if np.all(ref_cells >= 0) and np.all(ref_cells < 2 ** 32):
+        variants.append(("uint32", lambda a: a.astype(np.uint32), None))
+    if np.all(np.abs(ref_cells) < 2 ** 15):
+        variants.append(("int16", lambda a: a.astype(np.int16), None))
+    if np.all(np.abs(ref_cells) < 2 ** 53):
+        variants.append(("float64-integer-valued", lambda a: a.astype(np.float64), None))
+    for fname in ("cell2rowcol", "cell2coord"):
+        fun = getattr(g, fname)
+        try:
+            ref = fun(ref_cells)
+        except Exception:
+            ctx.count("layout.unjudged.%s.reference_raised" % fname)
+            continue
+        for name, conv, back in variants:
+            try:
+                out = fun(conv(ref_cells))
+            except Exception:
+                ctx.case(True, n=n)
+                ctx.count("layout.rejected.%s.%s" % (fname, name))
+                continue
+            ctx.case(True, outcome=np.asarray(out).tobytes(), n=n)
+            if back is not None:
+                out = back(np.asarray(out))
+            if same_result(out, ref):
+                ctx.count("layout.agree.%s.%s" % (fname, name))
+            else:
+                bad = _first_diff(out, ref)
+                ctx.violation("%s:layout=%s%s" % (fname, name, sfx), case,
+                              "%s of the same %d cell numbers given as %s differs from the int64 call: first difference at "
+                              "position %r (cell %r): %r vs %r" % (fname, n, name, bad, None if bad is None else int(ref_cells[bad]),
+                                                                    None if bad is None else np.asarray(out)[bad].tolist(),
+                                                                    None if bad is None else ref[bad].tolist()))
+    # neighbours: scalar types of the cell number
+    for c in (cells[0], cells[len(cells) // 2], cells[-1]):
+        try:
+            ref = g.neighbours(int(c))
+        except Exception:
+            ctx.count("layout.unjudged.neighbours.reference_raised")
+            continue
+        scal = [("np.int64", np.int64(c)), ("0d-array", np.array(c, dtype=np.int64))]
+        if c < 2 ** 53:
+            scal.append(("float", float(c)))
+        if c < 2 ** 31:
+            scal.append(("np.int32", np.int32(c)))
+        if c < 2 ** 32:
+            scal.append(("np.uint32", np.uint32(c)))
+        for name, v in scal:
+            try:
+                out = g.neighbours(v)
+            except Exception:
+                ctx.case(True)
+                ctx.count("layout.rejected.neighbours.%s" % name)
+                continue
+            ctx.case(True, outcome=np.asarray(out).tobytes())
+            if same_result(out, ref):
+                ctx.count("layout.agree.neighbours.%s" % name)
+            else:
+                ctx.violation("neighbours:layout=%s%s" % (name, sfx), dict(case, cell=int(c)),
+                              "neighbours(%s(%d)) = %r, neighbours(%d) = %r" % (name, c, np.asarray(out).tolist(), c, ref.tolist()))
+    # coord2cell: the query points of the grid (full product of the 1-D positions)
+    inset, dists = (EPS, DISTS) if mode in (None, "ladder") else (0.25, BIG_DISTS)
+    xs = positions_1d(ncols, xll, csz, None if mode is None else coarse_indices(ncols), inset, dists)
+    ys = positions_1d(nrows, yll, csz, None if mode is None else coarse_indices(nrows), inset, dists)
+    pts = np.array([[px[0], py[0]] for px in xs for py in ys], dtype=np.float64)
+    try:
+        ref = g.coord2cell(pts)
+    except Exception:
+        ctx.count("layout.unjudged.coord2cell.reference_raised")
+        return
+    exact32 = (pts.astype(np.float32).astype(np.float64) == pts).all(axis=1)
+    isint = (np.round(pts) == pts).all(axis=1) & (np.abs(pts) < 2 ** 53).all(axis=1)
+    pvars = [("list", lambda a: a.tolist(), None, None),
+             ("readonly", lambda a: _readonly(a.copy()), None, None),
+             ("fortran", lambda a: np.asfortranarray(a), None, None),
+             ("strided-rows", lambda a: _strided_rows(a), None, None),
+             ("strided-columns", lambda a: _strided_cols(a), None, None),
+             ("reversed", lambda a: a[::-1], lambda r: r[::-1], None),
+             ("bigendian", lambda a: a.astype(">f8"), None, None),
+             ("float32", lambda a: a.astype(np.float32), None, exact32),
+             ("float32-fortran", lambda a: np.asfortranarray(a.astype(np.float32)), None, exact32),
+             ("int64", lambda a: a.astype(np.int64), None, isint),
+             ("int32", lambda a: a.astype(np.int32), None, isint & (np.abs(pts) < 2 ** 31).all(axis=1))]
+    for name, conv, back, mask in pvars:
+        p, r = (pts, ref) if mask is None else (pts[mask], ref[mask])
+        if len(p) == 0:
+            ctx.count("layout.unjudged.coord2cell.%s.no_exact_point" % name)
+            continue
+        try:
+            out = g.coord2cell(conv(p))
+        except Exception:
+            ctx.case(True, n=len(p))
+            ctx.count("layout.rejected.coord2cell.%s" % name)
+            continue
+        ctx.case(True, outcome=np.asarray(out).tobytes(), n=len(p))
+        if back is not None:
+            out = back(np.asarray(out))
+        if same_result(out, r):
+            ctx.count("layout.agree.coord2cell.%s" % name)
+        else:
+            bad = _first_diff(out, r)
+            ctx.violation("coord2cell:layout=%s%s" % (name, sfx), case,
+                          "coord2cell of the same %d points given as %s differs from the float64 C-contiguous call: first "
+                          "difference at point %r: %r vs %r" % (len(p), name, None if bad is None else p[bad].tolist(),
+                                                                None if bad is None else np.asarray(out)[bad].tolist(),
+                                                                None if bad is None else r[bad].tolist()))
+
+
+def _readonly(a):
+    a.setflags(write=False)
+    return a
+
+
+def _strided(a):
+    big = np.full(2 * len(a) + 1, -5, dtype=a.dtype)
+    big[1::2] = a
+    return big[1::2]
+
+
+def _strided_rows(a):
+    big = np.full((2 * a.shape[0], a.shape[1]), 12345.5, dtype=a.dtype)
+    big[::2] = a
+    return big[::2]
+
+
+def _strided_cols(a):
+    big = np.full((a.shape[0], 2 * a.shape[1]), 12345.5, dtype=a.dtype)
+    big[:, ::2] = a
+    return big[:, ::2]
+
+
+def _first_diff(out, ref):
+    out, ref = np.asarray(out), np.asarray(ref)
+    if out.shape != ref.shape:
+        return None
+    ne = (out != ref) & ~((out != out) & (ref != ref))
+    ne = ne.reshape(len(ref), -1).any(axis=1)
+    return int(np.flatnonzero(ne)[0]) if ne.any() else None
+
+
+def run_ladder_unit(unit, ctx):
+    nrows, ncols, mode = unit["nrows"], unit["ncols"], unit["mode"]
+    first = True
+    for csz in unit["cellsizes"]:
+        for ox, oy in unit["origins"]:
+            xll, yll = csz * ox, csz * oy
+            gc = geom_case(nrows, ncols, csz, xll, yll, mode)
+            if first:
+                ctx.case(False, n=0, sample=dict(gc, kind="cells-sparse"))
+            try:
+                g = make_grid(nrows, ncols, csz, xll, yll, mode)
+            except MemoryError:
+                ctx.count("unjudged.%s_grid.MemoryError" % mode)
+                continue
+            ctx.count("grids.%s" % mode)
+            check_coord2cell(ctx, g, gc)
+            check_cells_sparse(ctx, g, gc)
+            if first or (csz == 1.0 and ox == 0.0):     # float32 layouts are exact on this geometry
+                check_layouts(ctx, g, gc)
+            first = False
+    # cell size 2, even origin: cell centres are odd integers, so int32 / int64 query points fall inside cells
+    gc = geom_case(nrows, ncols, 2.0, -4.0, 6.0, mode)
+    try:
+        g = make_grid(nrows, ncols, 2.0, -4.0, 6.0, mode)
+        ctx.count("grids.%s" % mode)
+        check_layouts(ctx, g, gc)
+    except MemoryError:
+        ctx.count("unjudged.%s_grid.MemoryError" % mode)
+
+
 def run_unit(unit, ctx):
+    if unit.get("kind") == "ladder":
+        return run_ladder_unit(unit, ctx)
     nrows, ncols, csz = unit["nrows"], unit["ncols"], unit["csz"]
     first = True
     for ox in unit["origins"]:
@@ -502,11 +1039,13 @@ def run_unit(unit, ctx):
             gc = geom_case(nrows, ncols, csz, xll, yll)
             if first:
                 ctx.case(False, n=0, sample=dict(gc, kind="cells"))
-                first = False
             g = make_grid(nrows, ncols, csz, xll, yll)
             ctx.count("grids")
             check_coord2cell(ctx, g, gc)
             check_cells(ctx, g, gc)
+            if first:
+                check_layouts(ctx, g, gc)       # first grid of the unit: the same queries in other layouts
+            first = False
     # history: ONE grid object whose origin is re-assigned through its public attributes between queries
     # (anything memoised on the object must follow); the case records where the grid came from
     gm = None
@@ -535,8 +1074,10 @@ def replay(case):
             self.violations.setdefault(key, []).append(
                 {"key": key, "case": case, "msg": msg, "observed": observed, "expected": expected})
     ctx = All()
-    gc = geom_case(case["nrows"], case["ncols"], case["csz"], case["xll"], case["yll"])
-    if case.get("moved_from"):
+    gc = geom_case(case["nrows"], case["ncols"], case["csz"], case["xll"], case["yll"], case.get("mode"))
+    if gc.get("mode"):
+        g = make_grid(gc["nrows"], gc["ncols"], gc["csz"], gc["xll"], gc["yll"], gc["mode"])
+    elif case.get("moved_from"):
         # the grid was created elsewhere, queried, and then moved by attribute assignment
         g = make_grid(gc["nrows"], gc["ncols"], gc["csz"], case["moved_from"][0], case["moved_from"][1])
         touch_grid(g)
@@ -549,6 +1090,13 @@ def replay(case):
         check_coord2cell(ctx, g, gc, only=(case["x"], case["y"], case.get("xtag", ""), case.get("ytag", "")))
     elif case.get("kind") == "coord2cell-call":
         check_coord2cell(ctx, g, gc)
+    elif case.get("kind") == "layout":
+        check_layouts(ctx, g, gc)
+    elif case.get("kind") == "cells-sparse":
+        check_cells_sparse(ctx, g, gc)
+        if "cell" in case:
+            c = case["cell"]
+            return [v for lst in ctx.violations.values() for v in lst if v["case"].get("cell", c) == c]
     else:
         check_cells(ctx, g, gc)
         if "cell" in case:
